@@ -6,6 +6,7 @@ import (
 	"os"
 	"path/filepath"
 	"sort"
+	"strings"
 	"time"
 
 	"github.com/cinar/indicator/v2/asset"
@@ -163,6 +164,35 @@ func c10History(cc *run.Case, kind string, nops, hidx int) bool {
 		if r.Intn(12) == 0 {
 			name = "never-appended"
 		}
+		if r.Intn(14) == 0 && len(model.data[name]) > 0 && len(names) < 8 {
+			// copy: the stream returned by Get is handed to Append for a NEW asset
+			// while it is still unread (reader and writer of one repository are
+			// active at the same time), then both assets are read back
+			dst := fmt.Sprintf("copy%d-of-%s", step, strings.ReplaceAll(name, ".", "_"))
+			hist = append(hist, repoOp{Op: "append(dst, get(src))", Name: dst + " <- " + name})
+			c, err := repo.Get(name)
+			if err != nil {
+				return fail(fmt.Sprintf("Get(%q) returned an error although %d snapshots were appended: %v", name, len(model.data[name]), err))
+			}
+			if err := repo.Append(dst, c); err != nil {
+				return fail(fmt.Sprintf("Append(%q, Get(%q)) returned an error: %v", dst, name, err))
+			}
+			model.append(dst, model.data[name])
+			names = append(names, dst)
+			lastDay[dst] = lastDay[name]
+			appends++
+			for _, n := range []string{dst, name} {
+				c, err := repo.Get(n)
+				if err != nil {
+					return fail(fmt.Sprintf("after Append(%q, Get(%q)): Get(%q) returned an error: %v", dst, name, n, err))
+				}
+				if msg := sameSnaps(helper.ChanToSlice(c), model.data[n]); msg != "" {
+					return fail(fmt.Sprintf("after Append(%q, Get(%q)): Get(%q): %s", dst, name, n, msg))
+				}
+				reads++
+			}
+			continue
+		}
 		switch k := r.Intn(10); {
 		case k < 4 && name != "never-appended": // Append
 			nb := r.Range(0, 5)
@@ -177,7 +207,9 @@ func c10History(cc *run.Case, kind string, nops, hidx int) bool {
 				d += r.Pick(0, 1, 1, 1, 2, 5) // equal consecutive dates included
 				batch[i] = asset.Snapshot{Date: day0.AddDate(0, 0, d), Open: randValue(r), High: randValue(r), Low: randValue(r), Close: randValue(r), Volume: randValue(r)}
 				if r.Intn(7) == 0 { // a row of maximal width: every field needs 17 digits, a sign and a 3-digit exponent
-					long := func() float64 { return -math.Float64frombits(r.U64()&^(0x7ff<<52) | uint64(r.Pick(r.Range(1, 600), r.Range(1500, 2046)))<<52) }
+					long := func() float64 {
+						return -math.Float64frombits(r.U64()&^(0x7ff<<52) | uint64(r.Pick(r.Range(1, 600), r.Range(1500, 2046)))<<52)
+					}
 					batch[i].Open, batch[i].High, batch[i].Low, batch[i].Close, batch[i].Volume = long(), long(), long(), long(), long()
 				}
 				c := batch[i]
@@ -361,4 +393,36 @@ func c10(ctx *run.Ctx) {
 		}
 	}
 	c10Concurrent(ctx, ctx.Pick(6, 150))
+	// A device that accepts no data: an Append that stored nothing must not
+	// return as if it had (the append would be invisible to every later read).
+	ctx.Case("filesystem/write-fault", func(cc *run.Case) {
+		if _, err := os.Stat("/dev/full"); err != nil {
+			cc.Count("write_fault_unavailable", 1)
+			return
+		}
+		repo, cleanup, err := newRepo("filesystem")
+		if err != nil {
+			cc.Inconclusive(err.Error())
+			return
+		}
+		defer cleanup()
+		base := reflectBase(repo)
+		if base == "" || os.Symlink("/dev/full", filepath.Join(base, "full.csv")) != nil {
+			cc.Count("write_fault_unavailable", 1)
+			return
+		}
+		for _, n := range []int{1, 3, 400} { // below and above the writer's buffer size
+			var snaps []*asset.Snapshot
+			for d := 0; d < n; d++ {
+				snaps = append(snaps, &asset.Snapshot{Date: day0.AddDate(0, 0, d), Open: 1, High: 2, Low: 0.5, Close: 1.5, Volume: 10})
+			}
+			cc.Desc(map[string]any{"repository": "filesystem", "asset_file": "symlink to /dev/full", "snapshots": n})
+			if err := repo.Append("full", helper.SliceToChan(snaps)); err == nil {
+				cc.Viol("", fmt.Sprintf("file-system repository: Append of %d snapshots to an asset whose file cannot take any data (ENOSPC on every write) returned no error", n), nil)
+				return
+			}
+			cc.Count("write_fault_cases", 1)
+		}
+		cc.Distinct("filesystem/write-fault")
+	})
 }
